@@ -651,12 +651,28 @@ func twoConnections(x *explore.X) {
 	gzA := x.ChooseFree("gzip-a", 2) == 1
 	gzB := x.ChooseFree("gzip-b", 2) == 1
 	sizeB := []int{40000, 5}[x.ChooseFree("size-b", 2)]
+	aborted := x.ChooseFree("an-earlier-download-was-aborted-by-its-client", 2) == 1
 	w, err := world.Start(world.Options{HTTPHandler: handler})
 	if err != nil {
 		x.Failf("harness/start", "%v", err)
 		return
 	}
 	nh, _ := w.Hop(originHost+":80", nil)
+	if aborted {
+		// history: a chunked download whose client vanished in the middle of the body (the proxy's copy fails)
+		c0, _ := w.Client()
+		c0.Send([]byte("GET http://" + originHost + "/aborted HTTP/1.1\r\nHost: " + originHost + "\r\n\r\n"))
+		msgs, conns, _ := nh.Next()
+		if len(msgs) != 1 {
+			x.Failf("next-hop-count", "origin received %d requests for the aborted download", len(msgs))
+			return
+		}
+		oc := nh.Conns[conns[0]]
+		oc.Send([]byte("HTTP/1.1 200 OK\r\nTransfer-Encoding: chunked\r\n\r\n2000\r\n" + string(h1x.Pattern(0x2000, 23)) + "\r\n"))
+		c0.Abort()
+		oc.Send([]byte("2000\r\n" + string(h1x.Pattern(0x2000, 29)) + "\r\n0\r\n\r\n"))
+		world.Settle(5 * time.Second)
+	}
 	mk := func(framing string, gzip bool, size int, salt byte) exchange {
 		return exchange{method: "GET", version: "HTTP/1.1", status: 200, reason: "OK", proto: "HTTP/1.1", framing: framing, size: size, gzip: gzip, override: h1x.Pattern(size, salt)}
 	}
@@ -710,7 +726,7 @@ func twoConnections(x *explore.X) {
 	if okB {
 		check("A (after it resumed)", clA, ea)
 	}
-	x.Outcome(fmt.Sprintf("handler=%v a=%s/%v b=%s/%v/%d", handler, fa, gzA, fb, gzB, sizeB))
+	x.Outcome(fmt.Sprintf("handler=%v a=%s/%v b=%s/%v/%d aborted=%v", handler, fa, gzA, fb, gzB, sizeB, aborted))
 	clA.Close()
 	clB.Close()
 	if err := w.Stop(); err != nil {
@@ -725,7 +741,7 @@ func twoConnections(x *explore.X) {
 
 func TestC02(t *testing.T) {
 	s := explore.NewSuite(t, "C02", "exploration",
-		"sequences of 1-3 exchanges on one client connection; each exchange = request method(3) x client version(2) x client Connection option(3) x origin status(7) x header shape(8) x framing(CL, chunked, EOF-delimited 1.1, EOF-delimited 1.0) x size(10) x chunking/trailers(5) x content(plain, gzip solicited by the proxy, gzip solicited by the client, event stream) x origin write segmentation(8) x configuration(TCP server, TestingHTTPHandler, MITM) x configured --response-header rule set(6: none, append, remove, prefix removal, rename, set-empty+remove); all combinations with at most D deviations (D=3 quick, 4 thorough) from the default sequence are executed and the client's byte stream is parsed by the independent parser and compared message by message with expectResponse; plus (two-connections) the full product framing x gzip x size x mode of two connections of which one client stops reading in the middle of a 70000-byte response while the other performs a complete exchange, both compared exactly; plus the full product of the incremental-delivery scenario (stream kind x event size x events x client version x configuration); non-trivial = at least one response was compared")
+		"sequences of 1-3 exchanges on one client connection; each exchange = request method(3) x client version(2) x client Connection option(3) x origin status(7) x header shape(8) x framing(CL, chunked, EOF-delimited 1.1, EOF-delimited 1.0) x size(10) x chunking/trailers(5) x content(plain, gzip solicited by the proxy, gzip solicited by the client, event stream) x origin write segmentation(8) x configuration(TCP server, TestingHTTPHandler, MITM) x configured --response-header rule set(6: none, append, remove, prefix removal, rename, set-empty+remove); all combinations with at most D deviations (D=3 quick, 4 thorough) from the default sequence are executed and the client's byte stream is parsed by the independent parser and compared message by message with expectResponse; plus (two-connections) the full product framing x gzip x size x mode (optionally after an earlier download that its client aborted mid-body) of two connections of which one client stops reading in the middle of a 70000-byte response while the other performs a complete exchange, both compared exactly; plus the full product of the incremental-delivery scenario (stream kind x event size x events x client version x configuration); non-trivial = at least one response was compared")
 	s.Assume = []string{"simnet models TCP", "httpwire is trusted", "compress/gzip is used to build and check gzip bodies"}
 	s.Add(explore.Scenario{Name: "exchanges", Remote: true, MaxDev: map[string]int{"quick": 3, "thorough": 4},
 		Run: func(x *explore.X) { world.Run(t, x, func() { scenario(x, false) }) }})
